@@ -1,3 +1,4 @@
+//go:build verif
 // +build verif
 
 // Verification hooks (build tag `verif` only): a synchronous stepping interface around the real
@@ -9,7 +10,12 @@
 package pbft
 
 import (
+	"io"
 	"time"
+
+	"go.uber.org/zap"
+
+	"github.com/dappledger/AnnChain/gemmill/modules/go-log"
 
 	sm "github.com/dappledger/AnnChain/gemmill/state"
 )
@@ -105,4 +111,25 @@ func (cs *ConsensusState) VerifRotateWAL() {
 	if cs.wal != nil {
 		cs.wal.group.RotateFile()
 	}
+}
+
+// VerifStartPreamble is the first part of OnStart (up to the start of the ticker): write the
+// marker of the current height if the WAL does not hold it. The statements between the two
+// VERIF-COPY comments are a verbatim copy of OnStart's; the verification machinery compares the
+// two texts on every run.
+func (cs *ConsensusState) VerifStartPreamble() error {
+	// VERIF-COPY-BEGIN OnStart
+	gr, found, err := cs.wal.group.Search("#HEIGHT: ", makeHeightSearchFunc(cs.Height))
+	if (err == io.EOF || !found) && cs.Step == RoundStepNewHeight {
+		log.Warn("Height not found in wal. Writing new height", zap.Int64("height", cs.Height))
+		rs := cs.RoundStateEvent()
+		cs.wal.Save(rs)
+	} else if err != nil {
+		return err
+	}
+	if gr != nil {
+		gr.Close()
+	}
+	// VERIF-COPY-END
+	return nil
 }
